@@ -562,9 +562,9 @@ func TestVerifC19Out(t *testing.T) {
 		vfoOne(t, s, idx, vfoGen(r.Fork(), fmt.Sprintf("f%d", idx), f))
 		idx++
 	}
-	if os.Getenv("VERIF_C19_CPRETRY") != "" {
-		// defect hypothesis D24 (checkpoint run-id fields lost when the first checkpoint flush is
-		// re-sent): enabled by default once syncer/output.go is repaired
+	{
+		// repaired defect (94a8b6c): the checkpoint run-id fields were lost when the first checkpoint
+		// flush of a run was re-sent after a failed redirect (monitor checkpoint-offset-without-runid)
 		vfoOne(t, s, idx, vfoGen(r.Fork(), fmt.Sprintf("f%d", idx), "cp-retry"))
 		idx++
 	}
